@@ -330,5 +330,6 @@ def check(ctx):
     from . import tablefmt
     tablefmt.check_iterator_statuses(ctx)     # a failed table read during compaction / lookup must not end as success
     check_aborts(ctx)
-    from . import c05
+    from . import c05, c02
+    c02.check_tables(ctx)         # a failed table write / sync / close is not overwritten by a later success
     c05.check_log_file(ctx)       # only a damaged log record may be forgiven during replay, never a failed flush
